@@ -26,10 +26,10 @@ PROP = "C16"
 CASE_TIMEOUT = 60.0
 MOD = __name__
 META = {
-    "rule": "L1 grid: 30 requires_python shapes x 30 platforms of the documented families (several releases each) x 4 "
-    "implementation settings = 3600 specs; all pairs inside a (platform, implementation) group for wheel monotonicity over "
+    "rule": "L1 grid: 30 requires_python shapes x 32 platforms (the documented families, several releases each, plus one hypothetical next major per Linux family) x 4 "
+    "implementation settings = 3840 specs; all pairs inside a (platform, implementation) group for wheel monotonicity over "
     "a 176-wheel universe, all ordered pairs of the whole grid for the compare() relations, all same-family platform pairs "
-    "for tag nesting (exhaustive over the grid); L2 Hypothesis requires_python pairs. Non-trivial = pair with different "
+    "for tag nesting (exhaustive over the grid); L1-epoch: 20 epoch-bearing requires_python texts x themselves, subset decided by packaging on an epoch 0/1/2 probe grid; L2 Hypothesis requires_python pairs. Non-trivial = pair with different "
     "requires_python where one admits a subset of the other, or two different platforms of the same OS family and "
     "architecture; distinct by the pair.",
     "assumptions": [
